@@ -106,7 +106,18 @@ def electrostatic_potential(
 
     coord_type = [ct for ct in [shell.coord_type for shell in basis]]
 
-    if all(ct == "cartesian" for ct in coord_type):
+    if transform is not None:
+        # the density matrix is expressed in the transformed basis (rows of `transform`)
+        if not (
+            isinstance(transform, np.ndarray)
+            and transform.ndim == 2
+            and transform.shape[0] == one_density_matrix.shape[0]
+        ):
+            raise ValueError(
+                "`one_density_matrix` does not have number of rows/columns that is equal to the "
+                "number of rows of `transform` (transformed orbitals)."
+            )
+    elif all(ct == "cartesian" for ct in coord_type):
         if sum(cont.num_cart * cont.num_seg_cont for cont in basis) != one_density_matrix.shape[0]:
             raise ValueError(
                 "`one_density_matrix` does not have number of rows/columns that is equal to the "
